@@ -55,6 +55,9 @@ CHECKS = {
   "C19": dict(level="fault_enumeration", design="3.8, 4 (C19)",
       text="Single-fault enumeration over the library's allocator: each scenario (7 version / key-exchange modes x client and server verifier x honest, defective-credential and defective-proof peers from the C04 generator, covering key loading, session creation, handshake, application data, closure, deletion) is first run to count its allocations (100 - 38000), then re-run with the k-th allocation failing - every k in the thorough tier, the first 12 plus an even spread plus a random sample in the quick tier - each run in its own process on the ASan/UBSan build with LeakSanitizer's leak check after all objects are deleted. Alarms: crash, sanitizer report, leak, hang, and any trace MxAuth_Trace rejects: under a fault a handshake may fail, but it may not complete with a verification step skipped (defective credentials / proofs never complete, a permissive callback must still be told a failure).",
       technique="exhaustive single allocation-fault injection (Malloc/Calloc/Realloc redefined at build time) + sanitizers + trace validation against MxAuth_Trace (fault-lenient mode)"),
+  "C10": dict(level="model_checking", design="3.4, 4 (C10)",
+      text="The outcome MxNegotiate prescribes for two endpoints restricted to one mutually supported (version, suite) is stated as MxInterop_Trace; every combination of role assignment x TLS 1.1/1.2/1.3 x 23 suite/key pairs x {plain, client authentication, resumption by session id / ticket / TLS 1.3 ticket, client auth + ticket, each ECDHE / TLS 1.3 group, each signature algorithm with and without client auth, HelloRetryRequest flows incl. resumption} is executed between the library and OpenSSL 3.5's libssl over memory BIOs with payloads of 1 to 40000 bytes in both directions, and TLC judges each run: both complete with that version and suite, every payload arrives intact both ways on the first and on the resumed connection, both stacks agree that the second connection was resumed.",
+      technique="trace validation (MxInterop_Trace, derived from the model-checked MxNegotiate) of executions against an independent implementation (OpenSSL libssl)"),
   "C05": dict(level="model_checking", design="3.6, 4 (C05)",
       text="MxName states the matching rule (exact case-insensitive match per kind, '*' for exactly one left-most label, CN only without supported SAN); TLC tabulates it over a universe of patterns x expected names and checks order independence, CN-only-without-SAN and one-label wildcards as invariants. Real leaf certificates with generated SAN lists (0-3 entries from a pool with wildcards in every position, partial wildcards, case variants, trailing dots, control characters, trailing/double/embedded NULs, e-mail, IP, URI entries; every order of sampled pairs/triples) x CN choices are run through matrixValidateCertsExt for each expected name of a grammar, and every verdict is validated by TLC against Match (soundness; completeness on names without trailing dot).",
       technique="TLA+ spec MxName checked by TLC + validation of the library's verdicts on generated certificates (MxName_Trace)"),
@@ -79,7 +82,9 @@ GARB_NOTE = ("Trusted base: the compilers' sanitizers; the driver's time limits 
              "Lines of these traces that MxSession_Trace does not explain are counted in the evidence, not alarmed: C06 / C15 judge sequence-level behaviour on curated input classes.")
 FAULT_NOTE = ("Trusted base: the sanitizers; osdep_malloc.h's documented override of Malloc/Calloc/Realloc (no source change); the driver treats a key set whose loading failed as unusable, as an application would. "
               "Single faults (and random pairs in the thorough tier); allocation failures inside libc / OpenSSL are not injected; multi-threaded scenarios are not covered.")
-NOTES = {"C19": FAULT_NOTE, "C08": GARB_NOTE, "C18": FRAME_NOTE, "C07": NEGO_NOTE, "C16": DTLS_NOTE, "C14": RES_NOTE, "C04": AUTH_NOTE, "C05": NAME_NOTE, "C01": SESSION_NOTE, "C06": SESSION_NOTE, "C15": SESSION_NOTE, "C02": CHAN_NOTE, "C17": CHAN_NOTE, "C03": PKI_NOTE}
+INTEROP_NOTE = ("Trusted base: OpenSSL 3.5 libssl as the reference implementation; TLC. The model-checked part is MxNegotiate (C07); MxInterop_Trace only states its consequence for singleton configurations plus the data round trip. "
+                "Not covered: DTLS, PSK suites, static ECDH suites, external TLS 1.3 PSKs, early data; OpenSSL runs with SSL_OP_LEGACY_SERVER_CONNECT (the pinned build has RFC 5746 signalling compiled out) and security level 0.")
+NOTES = {"C10": INTEROP_NOTE, "C19": FAULT_NOTE, "C08": GARB_NOTE, "C18": FRAME_NOTE, "C07": NEGO_NOTE, "C16": DTLS_NOTE, "C14": RES_NOTE, "C04": AUTH_NOTE, "C05": NAME_NOTE, "C01": SESSION_NOTE, "C06": SESSION_NOTE, "C15": SESSION_NOTE, "C02": CHAN_NOTE, "C17": CHAN_NOTE, "C03": PKI_NOTE}
 
 def main():
     hooks_commits = subprocess.run(["git", "-C", "/repo", "log", "--format=%h %s", "--grep=^verif:"], capture_output=True, text=True).stdout.strip().splitlines()
